@@ -16,8 +16,8 @@ ASSUMPTIONS = ["specification sort written as a comparison function (cmp_to_key)
 
 INF = float("inf")
 ALPHA = {
-    "int": [1, 2, None],
-    "str": ["a", "b", None],
+    "int": [0, 2, None],
+    "str": ["", "b", None],
     "eqnum": [1, True, None],      # 1 == True: ties between distinguishable values (stability is observable)
     "intc": [-1, -2, None],        # equal hash, different value
     "finf": [INF, 1.5, None],      # a real +inf next to None (None must still be placed by the None rule, not as a sentinel)
